@@ -237,6 +237,21 @@ Definition fent_unamb (sep : pystr) (e : fent) : bool :=
 Definition unambiguous_tmap (sep : pystr) (cs : tmap) : bool :=
   forallb (fent_unamb sep) (flatten_m cs).
 
+(* sufficient conditions for unambiguity used in the statements:
+   no segment contains the first character of the separator *)
+Definition headfree (sep : pystr) (segs : list pystr) : bool :=
+  match sep with
+  | [] => false
+  | c :: _ => forallb (fun seg => negb (Nmem c seg)) segs
+  end.
+
+(* every key segment of the mapping is separator-free (the property's own wording) *)
+Definition sepfree_tmap (sep : pystr) (cs : tmap) : bool :=
+  forallb (fun e => match e with
+                    | FEll => true
+                    | FE _ p _ => forallb (fun seg => negb (infix sep seg)) p
+                    end) (flatten_m cs).
+
 Fixpoint tdepth (t : tree) : nat :=
   match t with
   | TLeaf _ => 0
